@@ -302,9 +302,10 @@ def p_switch(env, lst, which=0):
         i = pull(ws)
         if i is _END:
             return
-        i = exact_int(i, 'Pswitch index')
-        if not 0 <= i < len(lst):
-            raise DontCare('index outside the list')
+        # the index wraps around the list (sclang: list.wrapAt(index); this
+        # library: lst[index % size]); negative indices count from the end.
+        # Non-integer indices are not decided.
+        i = exact_int(i, 'Pswitch index') % len(lst)
         yield from embed(lst[i], env)
 
 
@@ -317,9 +318,9 @@ def p_switch1(env, lst, which=0):
         i = pull(ws)
         if i is _END:
             return
-        i = exact_int(i, 'Pswitch1 index')
-        if not 0 <= i < len(lst):
-            raise DontCare('index outside the list')
+        # one stream per list item, made once per embedding; every index
+        # congruent to the item's position continues that same stream.
+        i = exact_int(i, 'Pswitch1 index') % len(lst)
         v = pull(streams[i])
         if v is _END:
             return
@@ -871,6 +872,14 @@ def selftest():
               ['Pseq', [0, 1, 0], 1, 0]]) == ([1, 2, 7, 1, 2], 'end')
     assert d(['Pswitch1', [['Pseq', [1, 2], 1, 0], 7],
               ['Pseq', [0, 1, 0, 1, 0, 1], 1, 0]]) == ([1, 7, 2, 7], 'end')
+    # indices wrap; aliases of one position share the item's stream
+    assert d(['Pswitch1', [['Pseq', [1, 2, 3, 4, 5, 6], 1, 0],
+                           ['Pseq', [10, 20, 30], 1, 0]],
+              ['Pseq', [0, 2, 1, 3, 0], 1, 0]]) == ([1, 2, 10, 20, 3], 'end')
+    assert d(['Pswitch1', [['Pseq', [1, 2], 1, 0], 7],
+              ['Pseq', [-1, -2, 1, 0, 2], 1, 0]]) == ([7, 1, 7, 2], 'end')
+    assert d(['Pswitch', [['Pseq', [1, 2], 1, 0], 7],
+              ['Pseq', [2, -1], 1, 0]]) == ([1, 2, 7], 'end')
     # Place help: Place([1, [2,5], [3,6]], inf) -> 1 2 3 1 5 6 ...
     assert d(['Place', [1, [2, 5], [3, 6]], 'inf', 0], 6) == \
         ([1, 2, 3, 1, 5, 6], 'more')
